@@ -887,6 +887,17 @@ def sum_ascii_class(ex, st, func, args, dest_ty):
     if cls not in table: return None
     return [(st, BoolV(table[cls]))]
 
+def sum_option_int_eq(ex, st, func, args, dest_ty):
+    """<Option<int> as PartialEq>::eq / ne: both None, or both Some with equal payloads"""
+    m = re.match(r'^<(?:std::option::)?Option<(\w+)> as PartialEq>::(eq|ne)$', func)
+    if not m or m.group(1) not in INT: return None
+    a, b = _target(st, args[0]), _target(st, args[1])
+    if not isinstance(a, ObjV) or not isinstance(b, ObjV): return None
+    da, db = ex.discr(st, a).t, ex.discr(st, b).t
+    pa = ex.load(st, a.oid, ('f', 'Some', 0), m.group(1)).t; pb = ex.load(st, b.oid, ('f', 'Some', 0), m.group(1)).t
+    e = z3.And(da == db, z3.Or(da == 0, pa == pb))
+    return [(st, BoolV(e if m.group(2) == 'eq' else z3.Not(e)))]
+
 def sum_box_uninit(ex, st, func, args, dest_ty):
     """Box::<[T; N]>::new_uninit(): a fresh box object (the first half of `vec![..]`)"""
     return [(st, ObjV(st.new_obj(st.fresh_name('box'), dest_ty or 'Box')))]
@@ -906,6 +917,7 @@ def sum_box_into_vec(ex, st, func, args, dest_ty):
     return [(st, seqobj(st, 'Vec', items))]
 
 GENERIC = [
+    (r'^<(std::option::)?Option<\w+> as PartialEq>::(eq|ne)$', sum_option_int_eq),
     (r'(^|::)(u8|char)::is_ascii(_\w+)?$|<impl (u8|char)>::is_ascii(_\w+)?$', sum_ascii_class),
     (r'^Box::<\[.*\]>::new_uninit$', sum_box_uninit), (r'box_assume_init_into_vec_unsafe::<', sum_box_into_vec),
     (r'^<\w+ as From<\w+>>::from$|^<\w+ as Into<\w+>>::into$', sum_int_from),
